@@ -121,6 +121,9 @@ pub fn execute(scn: &Scn, property: &str) -> RunOutcome {
 
     // C07 rest tracking: values at the first ended observation of the current stint.
     let mut rest_values: Option<Vals> = None;
+    // ... and whether that observation was made inside the float-rounding band around the end
+    // instant (then the comparison with later values is "within float rounding", not bit-exact)
+    let mut rest_in_band = false;
     // history shape for signatures: kinds of states visited (a = animated, u = un-animated)
     let mut history = String::new();
     history.push(if spec.animated(model.cur) { 'a' } else { 'u' });
@@ -502,6 +505,23 @@ pub fn execute(scn: &Scn, property: &str) -> RunOutcome {
                     rest_values = None;
                 }
                 if v.is_none() {
+                    // Inside the band the *instant* at which is_ended flips is not pinned down, but
+                    // what is_ended means is: whenever the animator itself says the animation is
+                    // over, the values are the terminal values and stay there. Inside the band
+                    // that is required within float rounding (the evaluation may be one rounding
+                    // short of the end instant: a smooth easing is then within a few hundred ulps
+                    // of its end value), outside bit for bit. The only timelines exempt inside the
+                    // band are those eased by the discontinuous staircase, whose value one
+                    // rounding before the end legitimately is the previous step.
+                    // (likewise a keyframe a hair away from the terminal position: a near-vertical
+                    // ramp right before the end instant); tolerance: oracle::BAND_ULPS
+                    let staircase = spec.states[cur].as_ref().map(oracle::steep_end).unwrap_or(false);
+                    let entered_with = model.entry[model.cur].clone().unwrap_or_else(|| prev.values.clone());
+                    let within_rounding = |m: &MergedSpec, a: &Vals, b: &Vals, extra: &Vals| -> Option<&'static str> {
+                        (0..4)
+                            .find(|&prop| !oracle::close_within_band(m, prop, oracle::get_prop(a, prop), oracle::get_prop(b, prop), oracle::get_prop(extra, prop)))
+                            .map(|prop| PROP_NAMES[prop])
+                    };
                     if let Some(rest) = &rest_values {
                         // already ended earlier in this stint
                         if !now.ended {
@@ -512,7 +532,14 @@ pub fn execute(scn: &Scn, property: &str) -> RunOutcome {
                                 format!("is_ended went back to false after {op:?} without a state change"),
                                 format!("phase={after_phase:?}"),
                             ));
-                        } else if let Some(f) = vals_differ(rest, &now.values) {
+                        } else if let Some(f) = if rest_in_band {
+                            match &spec.states[cur] {
+                                Some(m) if !staircase => within_rounding(m, rest, &now.values, &entered_with),
+                                _ => None,
+                            }
+                        } else {
+                            vals_differ(rest, &now.values)
+                        } {
                             v = Some(viol(
                                 "C07",
                                 "values-moved-after-end",
@@ -526,10 +553,17 @@ pub fn execute(scn: &Scn, property: &str) -> RunOutcome {
                             ));
                         }
                         out.count("probe.advance_after_end");
-                    } else if now.ended && !band {
-                        // (inside the float-rounding band around the end instant of an off-grid
-                        // run neither is_ended nor the rest values are pinned down yet)
+                        if rest_in_band && !band && v.is_none() {
+                            // past the band: from here on the values rest bit for bit
+                            rest_values = Some(now.values.clone());
+                            rest_in_band = false;
+                        }
+                    } else if now.ended {
                         rest_values = Some(now.values.clone());
+                        rest_in_band = band;
+                        if band {
+                            out.count("probe.reported_ended_inside_rounding_band_of_end_instant");
+                        }
                         out.triggered = true;
                         out.distinct.insert(hash_words(&[
                             phase_code(before_phase),
@@ -548,7 +582,7 @@ pub fn execute(scn: &Scn, property: &str) -> RunOutcome {
                         // terminal values from the configuration (only once evaluated at/after the
                         // end, i.e. when this observation follows an evaluation in this state)
                         if let (Some(m), Some(Some(u))) = (&spec.states[cur], total) {
-                            let firmly = tau_s > u || scn.grid;
+                            let firmly = !(band && staircase);
                             if firmly && !m.parts.is_empty() {
                                 for prop in 0..4 {
                                     if let Some(term) = oracle::merged_terminal(m, prop) {
@@ -558,7 +592,15 @@ pub fn execute(scn: &Scn, property: &str) -> RunOutcome {
                                             _ => 0.0,
                                         };
                                         let scale = oracle::float_scale(m, prop, extra);
-                                        if !oracle::prop_close(actual, term, scale, 8.0) {
+                                        let close = if band {
+                                            // terminal value within float rounding (see above)
+                                            let mut t = now.values.clone();
+                                            oracle::set_prop(&mut t, prop, term);
+                                            within_rounding(m, &now.values, &t, &entered_with).is_none()
+                                        } else {
+                                            oracle::prop_close(actual, term, scale, 8.0)
+                                        };
+                                        if !close {
                                             v = Some(viol(
                                                 "C07",
                                                 "terminal-values",
